@@ -33,16 +33,23 @@ def opcodes() -> List[int]:
     return [o for o in range(256) if not G.is_pre(o)]
 
 
-def draw_encoding(st: S.Stream, pre: Optional[int], op: int, b2: Optional[int] = None, hi_bias: bool = False
-                  ) -> Optional[bytes]:
+def _biased(st: S.Stream, near_ptr: bool) -> int:
+    # hi_bias: F0..FF (end of internal memory); near_ptr: D6..F6 (a run of up to 24 bytes from there, upwards or
+    # downwards, passes over the BP/PX/PY cells EC..EE)
+    return (0xD6 + st.below(0x21)) if near_ptr else (0xF0 + st.below(16))
+
+
+def draw_encoding(st: S.Stream, pre: Optional[int], op: int, b2: Optional[int] = None, hi_bias: bool = False,
+                  near_ptr: bool = False) -> Optional[bytes]:
     """b2 given: fixed second byte (focus grids); hi_bias: half of the operand bytes are drawn from F0..FF (internal
-    operands near the end of internal memory, also in the direct (n) mode where BP cannot move them)."""
+    operands near the end of internal memory, also in the direct (n) mode where BP cannot move them); near_ptr (with
+    hi_bias): from D6..F6 instead (internal operands next to the BP/PX/PY cells)."""
     lb = legal_b2(op)
     if not lb:
         return None
     if b2 is not None:
         if hi_bias and len(lb) == 256 and st.chance(1, 2):
-            b2 = 0xF0 + st.below(16)
+            b2 = _biased(st, near_ptr)
     elif len(lb) == 256 and st.chance(1, 3):
         b2 = st.choice(G.BOUNDARY_BYTES)
     else:
@@ -50,7 +57,7 @@ def draw_encoding(st: S.Stream, pre: Optional[int], op: int, b2: Optional[int] =
     tail = bytearray()
     for _ in range(5):
         if hi_bias and st.chance(1, 2):
-            tail.append(0xF0 + st.below(16))
+            tail.append(_biased(st, near_ptr))
         else:
             tail.append(st.choice(G.BOUNDARY_BYTES) if st.chance(1, 5) else (st.u32() & 0xFF))
     data = G.head_bytes(pre, op, b2) + bytes(tail)
@@ -145,8 +152,67 @@ def _range_of(mn: str, ops: List[Tuple[Any, ...]], i: int, o: Tuple[Any, ...], i
     return (a, a + ln - 1) if direction > 0 else ((a - ln + 1, a) if direction < 0 else (a - ln + 1, a + ln - 1))
 
 
+PTR_CELLS = (0xEC, 0xED, 0xEE)
+
+
+def _passes_over_ptr_cell(a: int, ln: int, direction: int) -> bool:
+    """The run of ln bytes from internal offset a (mod 256) reaches one of EC..EE *before its last byte*."""
+    for d in ((direction,) if direction else (1, -1)):
+        if any(((a + d * k) & 0xFF) in PTR_CELLS for k in range(ln - 1)):
+            return True
+    return False
+
+
+def _choose_over_ptr(st: S.Stream, mn: str, ops: List[Tuple[Any, ...]], regs: Dict[str, int]
+                     ) -> Optional[Tuple[int, int, int, List[str]]]:
+    """BP, PX, PY such that the internal run of one block operand -- the destination in 3/4 of the cases where there is
+    a choice, else the source -- passes over one of the cells EC..EE the operand addressing depends on, with bytes still
+    to copy; the six addressing modes stay pairwise distinct for every internal operand.  The register the operand's
+    mode uses is solved from the wanted start address ((n) direct: the n of the encoding decides)."""
+    ims = [(i, o) for i, o, is_ptr in _imem_ops(ops) if not is_ptr]
+    if not ims:
+        return None
+    for attempt in range(200):
+        bp, px, py = st.byte(), st.byte(), st.byte()
+        i, o = ims[0] if (len(ims) == 1 or st.chance(3, 4)) else ims[1]
+        ln, direction = _operand_len(mn, ops, i, False, regs)
+        if ln < 2:
+            return None
+        d = direction or 1
+        start = (st.choice(PTR_CELLS) - d * st.below(ln - 1)) & 0xFF
+        mode, n = o[1], (o[2] or 0)
+        if mode == "BP_N":
+            bp = (start - n) & 0xFF
+        elif mode == "PX_N":
+            px = (start - n) & 0xFF
+        elif mode == "PY_N":
+            py = (start - n) & 0xFF
+        elif mode == "BP_PX":
+            bp = (start - px) & 0xFF
+        elif mode == "BP_PY":
+            bp = (start - py) & 0xFF
+        ok = True
+        for _, o2, _ in _imem_ops(ops):
+            n2 = o2[2]
+            cands = [_mode_addr(m, n2, bp, px, py) for m in ("N", "BP_N", "PX_N", "PY_N", "BP_PX", "BP_PY")]
+            if n2 is None:
+                cands = cands[4:] + [bp & 0xFF, px & 0xFF, py & 0xFF]
+            if len(set(cands)) != len(cands):
+                ok = False
+                break
+        if not ok:
+            continue
+        if _passes_over_ptr_cell(_mode_addr(mode, o[2], bp, px, py), ln, direction):
+            return bp, px, py, ["imem-range:over-ptr-cell", "over-ptr-cell:" + ("dst" if i == 0 else "src")]
+    return None
+
+
 def choose_pointers(st: S.Stream, mn: str, ops: List[Tuple[Any, ...]], regs: Dict[str, int],
-                    force_wrap: bool = False) -> Tuple[int, int, int, List[str]]:
+                    force_wrap: bool = False, over_ptr: bool = False) -> Tuple[int, int, int, List[str]]:
+    if over_ptr:
+        got = _choose_over_ptr(st, mn, ops, regs)
+        if got is not None:
+            return got
     ims = _imem_ops(ops)
     labels: List[str] = []
     want_clean = not st.chance(1, 12)       # 11/12: ranges stay inside 00..FF and away from EC..EE
@@ -250,7 +316,11 @@ def make_case(st: S.Stream, code: bytes, imax: int, pc: Optional[int] = None, fo
     focus 'blockwrap': I >= 2 and an internal block that crosses the end of internal memory;
     focus 'ptr-edge': the [r3++] / [--r3] pointer sits where the access just fits below 100000h / reaches 00000h;
     focus 'bigcount': I is a large iteration count (big_count), the internal block wraps, 1/4 of the external
-    blocks end exactly at FFFFF / start exactly at 00000.
+    blocks end exactly at FFFFF / start exactly at 00000;
+    focus 'overptr': I in 2..24 (1/4: 25..200) and BP/PX/PY solved so that the internal run of the destination (or the
+    source) passes over one of the cells EC..EE with bytes still to copy (choose_pointers(over_ptr=True)).
+    pc: where the instruction sits (None: gen_state draws an address away from the 64 KiB page ends; the caller passes
+    page_cross_pc(...) to make the encoding straddle a page boundary).
     In half of all cases the lifter's scratch registers TEMP0..TEMP13 hold generated junk at instruction entry (they
     are part of the Python register file and keep whatever earlier instructions left in them; the documented result is
     a function of the architectural inputs only)."""
@@ -268,6 +338,10 @@ def make_case(st: S.Stream, code: bytes, imax: int, pc: Optional[int] = None, fo
         regs["I"] = st.below(4 * imax + 1)   # a prefixed WAIT runs its IL loop I times (no fast path): keep it short
     if focus == "blockwrap" and regs["I"] < 2:
         regs["I"] = 2 + st.below(23)
+    if focus == "overptr":
+        # small and medium counts: the run must have bytes left after the pointer cell
+        regs["I"] = (25 + st.below(176)) if st.chance(1, 4) else (2 + st.below(23))
+        labels[:] = [x for x in labels if not x.startswith("I:")] + ["I:2..24" if regs["I"] < 25 else "I:25..200"]
     if focus == "bigcount":
         regs["I"], lab_i = big_count(st)
         labels[:] = [x for x in labels if not x.startswith("I:")] + ["I:big", lab_i]
@@ -294,7 +368,8 @@ def make_case(st: S.Stream, code: bytes, imax: int, pc: Optional[int] = None, fo
             elif o[0] == "ereg" and o[2] == "predec":
                 regs[o[1]] = st.choice((0x00001, 0x00002, 0x00003))     # a 1/2/3-byte access starts exactly at 00000
                 labels.append("ptr:edge-bottom")
-    bp, px, py, lb = choose_pointers(st, mn, ops, regs, force_wrap=(focus in ("blockwrap", "bigcount")))
+    bp, px, py, lb = choose_pointers(st, mn, ops, regs, force_wrap=(focus in ("blockwrap", "bigcount")),
+                                     over_ptr=(focus == "overptr"))
     labels += lb
     mem = [m for m in case["mem"] if m[0] not in (IMEM + 0xEC, IMEM + 0xED, IMEM + 0xEE)]
     mem += [[IMEM + 0xEC, bp], [IMEM + 0xED, px], [IMEM + 0xEE, py]]
@@ -348,3 +423,119 @@ def make_case(st: S.Stream, code: bytes, imax: int, pc: Optional[int] = None, fo
     else:
         labels.append("temps:clear")
     return case, labels, mn, ops
+
+
+# ---------------------------------------------------------------------------------------------------------------
+# Where the instruction sits: encodings that straddle a 64 KiB page boundary of the 20-bit code space
+# ---------------------------------------------------------------------------------------------------------------
+
+def page_cross_pc(st: S.Stream, length: int, k: Optional[int] = None) -> Tuple[int, str]:
+    """PC such that byte offset k of the encoding is the first byte of a new 64 KiB page (k in 1..length-1: the encoding
+    straddles the boundary; k = length: the instruction ends exactly at the page end and the look-ahead starts the new
+    page; k = 0: the instruction is the first one of the page).  k None: drawn from 0..length.  The boundary is one of
+    10000h..F0000h (the top of the 1 MiB space is left out: what follows FFFFF is not documented)."""
+    if k is None:
+        k = st.below(length + 1)
+    page = 1 + st.below(15)
+    pc = (page << 16) - k
+    if 0 < k < length:
+        return pc, "page:straddles"
+    return pc, ("page:ends-at-boundary" if k else "page:starts-at-boundary")
+
+
+# ---------------------------------------------------------------------------------------------------------------
+# What the emulator object did before: the previous operation on the same (long-lived) Emulator
+# ---------------------------------------------------------------------------------------------------------------
+
+_REJECT: Optional[Dict[str, List[Tuple[int, int]]]] = None
+
+
+def reject_classes() -> Dict[str, List[Tuple[int, int]]]:
+    """(opcode, second byte) heads the repository's decoder does NOT accept, grouped by how it says so (asked once):
+    'decode:None' (decode() returns None: undefined mode/register), 'decode:<Exception>' (decode() raises, e.g. an
+    operand assertion), 'analyze:<Exception>' (decodes, but analyze() refuses it: a PRE byte that cannot be fused)."""
+    global _REJECT
+    if _REJECT is not None:
+        return _REJECT
+    from sc62015.pysc62015.instr import decode, OPCODES
+    from binaryninja import InstructionInfo
+
+    out: Dict[str, List[Tuple[int, int]]] = {}
+    for op in range(256):
+        for b2 in range(256):
+            data = bytes([op, b2, 0x10, 0x20, 0x30, 0x04]) + G.NOP_PAD
+            try:
+                ins = decode(data, 0x1000, OPCODES)
+            except Exception as exc:  # noqa: BLE001 - the class of rejection is what is recorded
+                out.setdefault("decode:" + type(exc).__name__, []).append((op, b2))
+                continue
+            if ins is None:
+                out.setdefault("decode:None", []).append((op, b2))
+                continue
+            try:
+                ins.analyze(InstructionInfo(), 0x1000)
+            except Exception as exc:  # noqa: BLE001
+                out.setdefault("analyze:" + type(exc).__name__, []).append((op, b2))
+    _REJECT = {k: out[k] for k in sorted(out)}
+    return _REJECT
+
+
+def warm() -> None:
+    """Fill the per-process decoder-derived tables (legal second bytes, focus heads, rejected heads).  Called once in
+    the parent before the fork pool so that the workers inherit them."""
+    for op in opcodes():
+        legal_b2(op)
+    for f in ("blockwrap", "ptr-edge"):
+        focus_heads(f)
+    reject_classes()
+
+
+def _rejected_code(st: S.Stream) -> Tuple[bytes, str]:
+    rc = reject_classes()
+    cls = st.choice(sorted(rc))
+    op, b2 = st.choice(rc[cls])
+    pre = st.choice(G.PRE_OPCODES) if (not G.is_pre(op) and st.chance(1, 4)) else None
+    tail = bytes((st.choice(G.BOUNDARY_BYTES) if st.chance(1, 5) else (st.u32() & 0xFF)) for _ in range(4))
+    return G.head_bytes(pre, op, b2) + tail, cls + ("+pre" if pre is not None else "")
+
+
+def draw_prior(st: S.Stream, ops_list: Sequence[int], pc: int, force: bool = False
+               ) -> Tuple[Optional[Dict[str, Any]], List[str]]:
+    """The operation the Emulator object performed right before the instruction under test (None: a fresh emulator):
+    kind    valid instruction executed / valid instruction only decoded (a disassembly view; 'self': the instruction
+            under test itself) / a fetch the decoder
+            REJECTS (class drawn uniformly from reject_classes(), then the head uniformly inside the class), through
+            execute_instruction or decode_instruction; a valid prior is followed by a rejected head in 1/4 of the cases
+            (the decoder's look-ahead fails);
+    address the same address as the instruction under test (other bytes were there: overlay / self-modified code),
+            right next to it, or anywhere else.
+    Afterwards the harness restores registers, memory and the power state to those of the case (c03_core.execute): only
+    the emulator object's own, non-architectural state is carried over."""
+    k = (4 + st.below(4)) if force else st.below(8)
+    if k < 4:
+        return None, ["prior:none"]
+    w = st.below(4)
+    if w == 0:
+        addr, where = pc, "same-address"
+    elif w == 1:
+        addr = (pc + 24 + st.below(8)) if st.chance(1, 2) else (pc - 9 - st.below(8))
+        where = "adjacent"
+    else:
+        addr, where = 0x00400 + st.below(0xFF000), "elsewhere"
+    addr = min(max(addr, 0x100), 0xFFFC0)
+    if k >= 6:
+        code, cls = _rejected_code(st)
+        via = "execute" if st.chance(1, 2) else "decode"
+        kind = "rejected:" + cls
+    elif k == 5 and w == 0 and st.chance(1, 2):
+        # the emulator is asked to decode the very instruction it is about to execute (a disassembly view, then a step)
+        code, via, kind = b"", "decode", "self"
+    else:
+        code = draw_encoding(st, st.choice(G.PRES), st.choice(list(ops_list))) or b"\x00"
+        via = "execute" if k == 4 else "decode"
+        kind = "valid"
+        if st.chance(1, 4):
+            code += _rejected_code(st)[0]
+            kind = "valid+rejected-lookahead"
+    return ({"kind": kind, "via": via, "addr": addr, "code": code.hex()},
+            [f"prior:{kind}/{via}", "prior-at:" + where])
